@@ -19,7 +19,11 @@ const CLASSES: &[&str] = &["undo_err", "undo_panic", "undo_mismatch", "redo_err"
 /// Open findings that need a design decision: their precondition is not generated at all (in no part), because the
 /// failures they cause show up under the name of whatever innocent operation comes later.
 const PRECONDITIONS: &[(&str, &[&str], &str)] = &[
-    ("C08-stamp-layer-down", &["StampLayerDown"], "no stamp_layer_down"),
+    (
+        "C08-stamp-layer-down",
+        &[],
+        "stamp_layer_down is left out exactly when top and receiving layer have the same size and top.offset + base.offset != (0,0) (ops::stamp_known_class); all other stamps are executed",
+    ),
     ("C08-insert-delete-row-column-undo", &["InsertRow", "DeleteRow", "InsertColumn", "DeleteColumn"], "no insert/delete row/column"),
     ("C08-alpha-lock-undo", &[], "no layer with is_alpha_channel_locked (initial documents and update_layer_properties)"),
     ("C08-shrunk-layer-hidden-content", &["SetLayerSize"], "no set_layer_size (the only operation that can leave content beyond a layer's size)"),
@@ -31,6 +35,14 @@ struct Steer {
     /// kinds removed from every alphabet
     kinds: Vec<String>,
     no_alpha_lock: bool,
+    /// StampLayerDown is generated as StampLayerDownSteered
+    steer_stamp: bool,
+}
+
+fn steer_stamp(op: &mut Op) {
+    if matches!(op, Op::StampLayerDown) {
+        *op = Op::StampLayerDownSteered;
+    }
 }
 
 fn clear_alpha_lock(op: &mut Op) {
@@ -41,8 +53,13 @@ fn clear_alpha_lock(op: &mut Op) {
 
 fn cases(avoid: Vec<String>, flip_w: u32, steer: &Steer) -> BoxedStrategy<Case> {
     let no_alpha_lock = steer.no_alpha_lock;
+    let stamp = steer.steer_stamp;
     (doc_strategy(), history_strategy(&avoid, flip_w), prop::collection::vec(any::<u16>(), 0..=4), any::<u16>(), op_strategy(&avoid, 0), prop::bool::weighted(0.3))
         .prop_map(move |(mut doc, mut ops, walk, k, mut extra, stepwise)| {
+            if stamp {
+                ops.iter_mut().for_each(steer_stamp);
+                steer_stamp(&mut extra);
+            }
             if no_alpha_lock {
                 doc.layers.iter_mut().for_each(|l| l.alpha_locked = false);
                 ops.iter_mut().for_each(clear_alpha_lock);
@@ -51,6 +68,89 @@ fn cases(avoid: Vec<String>, flip_w: u32, steer: &Steer) -> BoxedStrategy<Case> 
             Case { doc, ops, walk, k, extra, stepwise }
         })
         .boxed()
+}
+
+/// The table behind the finding C08-stamp-layer-down: top layer offset x receiving layer offset x size relation x position
+/// of the stamped character; one stamp_layer_down each (never steered).
+const FRAME_OFFSETS: [(i8, i8); 4] = [(0, 0), (1, 0), (0, 1), (2, 1)];
+const STAMP_FRAMES: u64 = 4 * 4 * 3 * 3;
+
+fn stamp_frame_case(i: u64) -> Case {
+    use model::{DocM, LayerM, PalM};
+    let top_off = FRAME_OFFSETS[(i % 4) as usize];
+    let base_off = FRAME_OFFSETS[((i / 4) % 4) as usize];
+    let (bw, bh) = (6u8, 4u8);
+    let (tw, th) = [(4u8, 3u8), (6, 4), (8, 5)][((i / 16) % 3) as usize];
+    let content = [(0u8, 0u8), (tw / 2, th / 2), (tw - 1, th - 1)][((i / 48) % 3) as usize];
+    let layer = |w: u8, h: u8, off: (i8, i8), alpha: bool, cells: Vec<(u8, u8, CellM)>| LayerM {
+        full: false,
+        w,
+        h,
+        ox: off.0,
+        oy: off.1,
+        alpha,
+        visible: true,
+        locked: false,
+        pos_locked: false,
+        alpha_locked: false,
+        mode: 0,
+        role: 0,
+        transparency: 0,
+        default_font_page: 0,
+        storage: 0,
+        cells,
+        preview: None,
+        stripes: vec![],
+    };
+    let base = layer(bw, bh, base_off, false, vec![(0, 0, CellM::plain(b'a', 7, 0)), (2, 1, CellM::plain(b'b', 10, 1)), (5, 3, CellM::plain(b'c', 12, 0)), (4, 0, CellM::plain(b'd', 3, 0))]);
+    let top = layer(tw, th, top_off, true, vec![(content.0, content.1, CellM::plain(b'T', 15, 4))]);
+    let doc = DocM {
+        w: 12,
+        h: 8,
+        layers: vec![base, top],
+        ice: 0,
+        pal_mode: 1,
+        font_mode: 0,
+        buffer_type: 0,
+        palette: PalM::Dos,
+        fonts: vec![],
+        sauce: None,
+        sel: None,
+        mask: vec![],
+        caret: (0, 0),
+        caret_font: 0,
+        cur: 1,
+        mirror: false,
+        transient: Default::default(),
+    };
+    Case { doc, ops: vec![Op::StampLayerDown], walk: vec![0x8000], k: 0, extra: Op::SetChar { x: 0, y: 0, c: CellM::plain(b'n', 15, 1) }, stepwise: false }
+}
+
+/// Entries inside the known failing class must fail with the finding's key (or pass once it is fixed); all others are asserted
+/// to pass (a failure there carries the tag `outside_known_stamp_class` and matches no known key).
+fn check_stamp_frame(c: &Case) -> icyv::Verdict {
+    use icy_engine::TextPane;
+    let st = c.doc.build();
+    let in_class = ops::stamp_known_class(&st) == Some(true);
+    let sizes = {
+        let l = &st.get_buffer().layers;
+        if l[1].get_width() < l[0].get_width() {
+            "top_smaller"
+        } else if l[1].get_size() == l[0].get_size() {
+            "top_equal"
+        } else {
+            "top_larger"
+        }
+    };
+    drop(st);
+    match check(c) {
+        icyv::Verdict::Pass { .. } => icyv::Verdict::pass(true, format!("{}|{sizes}", if in_class { "known_class_but_passes" } else { "passes" })),
+        icyv::Verdict::Fail { key, msg } if in_class && (key == "undo_mismatch.layer_cells|culprit=StampLayerDown" || key == "redo_mismatch.layer_cells|culprit=StampLayerDown") => {
+            // one defect: where undo happens to restore the receiving layer, redo shows it; reported under the finding's key
+            icyv::Verdict::fail("undo_mismatch.layer_cells|culprit=StampLayerDown", format!("[{key}] {msg}"))
+        }
+        v => v,
+    }
 }
 
 /// Long histories: the number of items sits around the caps a maintainer would pick for a history limit.
@@ -88,7 +188,26 @@ fn enumerated_case(i: u64, per_doc: u64, alpha: &[Op], alpha3: &[Op]) -> Case {
     Case { doc, ops, walk: vec![0x8000], k: 0, extra: Op::SetChar { x: 0, y: 0, c: CellM::plain(b'n', 15, 1) }, stepwise: false }
 }
 
+/// `C08_STAMP_TABLE=1 c08 quick` prints the verdict of every stamp_frames entry and exits (how the failing class of the
+/// finding C08-stamp-layer-down was determined).
+fn print_stamp_table() {
+    for i in 0..STAMP_FRAMES {
+        let c = stamp_frame_case(i);
+        let (b, t) = (&c.doc.layers[0], &c.doc.layers[1]);
+        let v = match check_stamp_frame(&c) {
+            icyv::Verdict::Pass { class, .. } => format!("pass  {class}"),
+            icyv::Verdict::Fail { key, msg } => format!("FAIL  {key}  {}", msg.chars().take(40).collect::<String>()),
+            icyv::Verdict::Discard { why } => format!("discard {why}"),
+        };
+        println!("top@({},{}) {}x{} T at {:?} | base@({},{}) {}x{} | {v}", t.ox, t.oy, t.w, t.h, (t.cells[0].0, t.cells[0].1), b.ox, b.oy, b.w, b.h);
+    }
+}
+
 fn main() {
+    if std::env::var_os("C08_STAMP_TABLE").is_some() {
+        print_stamp_table();
+        return;
+    }
     let mut eng = Engine::new("C08");
     eng.rule(
         "A case = (initial document model, history = Vec<Op>, walk, k, extra, stepwise). Documents: 12x8..30x20, 1..=3 layers (alpha, offset incl. negative, hidden, locked, \
@@ -115,8 +234,12 @@ fn main() {
          plain round, the number of registered undo steps against the model (one per step item, one per atomic group), can_redo() false after redoing everything, and a walk to the \
          boundaries before the last item, in the middle and after the first item; key <class>|long_history; non-trivial: the document changed and >= 50 steps. \
          Distinct by case hash. While one of the findings C08-stamp-layer-down, C08-insert-delete-row-column-undo, C08-alpha-lock-undo, C08-shrunk-layer-hidden-content, \
-         C08-change-font-slot is open, its precondition (stamp_layer_down; insert/delete row/column; alpha-locked layers; set_layer_size; change_font_slot) is generated in no part \
-         (coverage.steered_away lists what was removed); witness and replay files are never steered.",
+         C08-change-font-slot is open, its precondition (insert/delete row/column; alpha-locked layers; set_layer_size; change_font_slot) is generated in no part; for \
+         C08-stamp-layer-down only the failing class itself is avoided: the generators emit StampLayerDownSteered, which leaves the stamp out exactly when top and receiving layer have the \
+         same size and top.offset + base.offset != (0,0) and executes every other stamp (coverage.steered_away lists what was removed; cases with a left-out stamp carry the class suffix \
+         stamp_in_known_class_left_out); a failing stamp outside that class gets the key tag |outside_known_stamp_class. stamp_frames: exhaustive table of one stamp_layer_down (never \
+         steered) over top offset x receiving-layer offset in {(0,0),(1,0),(0,1),(2,1)} x top size {4x3, 6x4, 8x5} against a 6x4 receiving layer x position of the stamped character \
+         (first, middle, last cell): entries inside the class must fail with the finding's key (or pass once fixed), all others must pass. Witness files are never steered.",
     );
     eng.assume("the snapshot reads the document only through public accessors (get_char on every cell inside each layer's size, sizes, offsets, Properties, role, transparency, default font page, palette RGB, font table, SAUCE fields, buffer size and modes); caret, selection, current layer, overlay layer, a pending preview offset and dirty flags are not part of the document state named by the statement (undo may clear a preview offset; the layer offset that is compared is the stored one, Layer::get_base_offset); the font page of an invisible cell is not compared (the engine pads rows with font-page-0 invisibles whatever the layer's default page is)");
     eng.assume("SAUCE records handed to update_sauce_data carry the current buffer size (Buffer::set_size keeps sauce.buffer_size in step, so a record with a foreign size is outside the editor's own invariant)");
@@ -130,6 +253,9 @@ fn main() {
             steer.kinds.extend(kinds.iter().map(|k| k.to_string()));
             if *id == "C08-alpha-lock-undo" {
                 steer.no_alpha_lock = true;
+            }
+            if *id == "C08-stamp-layer-down" {
+                steer.steer_stamp = true;
             }
             steered.push(json!({"finding": id, "not_generated": what, "kinds": kinds}));
         }
@@ -156,6 +282,9 @@ fn main() {
     let mut alpha = reduced_alphabet();
     let r_full = alpha.len();
     alpha.retain(|o| !steer.kinds.iter().any(|k| *k == o.kind()));
+    if steer.steer_stamp {
+        alpha.iter_mut().for_each(steer_stamp);
+    }
     eng.extra(
         "steered_away",
         json!({
@@ -188,6 +317,7 @@ fn main() {
     // flip_x / flip_y rebuild the glyph flip tables of every font on each call (25-90 ms): own, smaller part
     let (st, av) = (steer.clone(), avoid_bulk.clone());
     eng.generated_min(PartCfg::new("flip_histories", 1_200, 20_000).shrink_budget(100), move || cases(av.clone(), 25, &st), check, |_| "-".to_string(), minimize);
+    eng.enumerated(PartCfg::new("stamp_frames", 0, 0).exhaustive(true), STAMP_FRAMES, stamp_frame_case, check_stamp_frame);
     // history length as its own dimension: few cases, 60..4100 (thorough: ..10000) cheap operations each
     let thorough = eng.is_thorough();
     eng.generated_min(PartCfg::new("long_histories", 300, 5_000).shrink_budget(40), move || long_cases(thorough), check_long, |_| "-".to_string(), minimize_long);
